@@ -329,9 +329,12 @@ def boundary_cases():
     out.append(regb + ["ops", "c", boot_op("0:-"), "s @ interfaces.eth0.mtu i9000 0", "m @ 0:-", "x @", boot_op("0:-")])  # start-up while locked
     # a commit that failed after validation, then LoadConfig replaces the candidate, then the commit is retried:
     # the validators must run again on the new candidate
+    regn = list(reg3)
+    for i in range(int(regn[1])):
+        regn[2 + 5 * i + 3] = "-"       # no dependencies: the walker re-emits the changes in its own order
     for f in ["1:-", "0:t", "0:r", "0:s", "2:q1"]:
-        out.append(reg3 + ["ops"] + base + ["m 1 " + f, load_op("@", "c"), "m @ 0:-", load_op("@", "n"), "m @ 0:-", "c"])
-        out.append(reg3 + ["ops"] + base + ["m 1 " + f, load_op("@", "k"), "m @ " + f, "s @ interfaces.eth2.mtu i1 0",
+        out.append(regn + ["ops"] + base + ["m 1 " + f, load_op("@", "c"), "m @ 0:-", load_op("@", "n"), "m @ 0:-", "c"])
+        out.append(regn + ["ops"] + base + ["m 1 " + f, load_op("@", "k"), "m @ " + f, "s @ interfaces.eth2.mtu i1 0",
                                            load_op("@", "c"), "s @ interfaces.eth2.mtu i2 0", "m @ 0:-", "x @"])
     # the routing daemon: reload fails cleanly / after the daemon took the candidate; a Rollback call fails
     for f in ["0:r", "0:R", "0:Rq1", "0:rq2", "3:q1", "0:tq2", "0:sq1"]:
